@@ -209,6 +209,7 @@ func checkC09(c *Ctx) error {
 		return err
 	}
 	engineCoverage(c, k.E, "")
+	c.Coverage["bounds"] = map[string]any{"cycle_detection_nodes": nCyc, "newgraph_providers_x_types": fmt.Sprint(bounds), "process_files": 2, "outside": "larger graphs; refusals raised inside the parser are reached only through the CLI gates"}
 	c.Coverage["explanation"] = fmt.Sprintf("Path-complete bounded execution of the real functions in the symbolic interpreter (forks on fresh nondeterministic inputs; no solver work beyond feasibility): detectCycles on every edge relation over %d nodes (parallel edges: %v) against a transitive-closure reference, incl. 'the diagnostic is a closed walk naming its types'; NewGraph on every declaration with %d providers over %d type tokens (functions with 1-2 results / Struct expansions with 1-2 fields, any requested type) against a reference for duplicate supplier / orphan Struct / reachable cycle; Processor.ProcessFiles on %d files with ParseFile/CreateInjector/os.Create/Generate failing at every position (refusal => no output file created for that file and a non-nil error); main maps an error to exit status 1. Gates through the CLI built from the tree: %d planted-invalid declarations must be refused with exit != 0, output file untouched and the types named; every valid corpus declaration accepted with one function each.", nCyc, par, np, nt, nfiles, gate)
 	c.Coverage["obligations"] = oblig
 	c.Coverage["evaluations"] = paths
